@@ -8,6 +8,7 @@
 package main
 
 import (
+	"math/big"
 	"encoding/json"
 	"fmt"
 	"os"
@@ -231,12 +232,54 @@ func Phi(t tid, v *progen.Val) *progen.Val {
 		return out
 	}
 	if t.Tname == "int" && v.K == progen.VNum && strings.ContainsAny(v.N, ".eE") {
-		var f float64
-		if _, err := fmt.Sscan(v.N, &f); err == nil && f == float64(int64(f)) && f < 9e15 && f > -9e15 {
-			return progen.Int(int64(f))
+		// exact arithmetic on the literal: an integral value that fits an
+		// int64 is written as that integer, digit for digit
+		if r, ok := new(big.Rat).SetString(v.N); ok && r.IsInt() && r.Num().IsInt64() {
+			return progen.Int(r.Num().Int64())
 		}
 	}
 	return v
+}
+
+// eqExact compares two JSON values; numbers are compared as exact decimals.
+func eqExact(a, b *progen.Val) bool {
+	if a == nil || b == nil {
+		return a == b
+	}
+	if a.K != b.K {
+		return false
+	}
+	switch a.K {
+	case progen.VNum:
+		ra, ok1 := new(big.Rat).SetString(a.N)
+		rb, ok2 := new(big.Rat).SetString(b.N)
+		if !ok1 || !ok2 {
+			return a.N == b.N
+		}
+		return ra.Cmp(rb) == 0
+	case progen.VArr:
+		if len(a.A) != len(b.A) {
+			return false
+		}
+		for i := range a.A {
+			if !eqExact(a.A[i], b.A[i]) {
+				return false
+			}
+		}
+		return true
+	case progen.VObj:
+		if len(a.O) != len(b.O) {
+			return false
+		}
+		for k, x := range a.O {
+			y, ok := b.O[k]
+			if !ok || !eqExact(x, y) {
+				return false
+			}
+		}
+		return true
+	}
+	return a.JSON() == b.JSON()
 }
 
 // usesUndeclared reports whether the value has a field Phi would drop.
@@ -310,7 +353,9 @@ func mutate(v *progen.Val) []*progen.Val {
 			progen.Arr(), progen.Obj(nil), progen.Arr(orig.Clone()),
 			// numbers at and beyond the int64 range, exponent forms, negative integral floats
 			progen.Num("9223372036854775808"), progen.Num("1e19"), progen.Num("-1e19"), progen.Num("18446744073709551616.0"),
-			progen.Num("1e2"), progen.Num("-3.0"), progen.Num("9223372036854775807")}
+			progen.Num("1e2"), progen.Num("-3.0"), progen.Num("9223372036854775807"),
+			// integral floats that float64 cannot hold exactly
+			progen.Num("9007199254740993.0"), progen.Num("-9007199254740993.0"), progen.Num("9223372036854775807.0"), progen.Num("1234567890123456789e0")}
 		var res []*progen.Val
 		for _, c := range cands {
 			if c.JSON() != orig.JSON() {
@@ -408,7 +453,7 @@ func jsonEq(a, b string) bool {
 	if e1 != nil || e2 != nil {
 		return false
 	}
-	return progen.EqSlack(va, vb, "") == "" && progen.EqSlack(vb, va, "") == ""
+	return progen.EqSlack(va, vb, "") == "" && progen.EqSlack(vb, va, "") == "" && eqExact(va, vb)
 }
 
 type Case struct {
